@@ -45,6 +45,16 @@ func H_C16_server() {
 		l.sessions.add(s)
 	}
 	epoch := vfU64()
+	if vfShape("handshaking", 0, 1) == 1 {
+		// a session that has not finished its handshake makes the request fail: the listener must
+		// not stay in the hot-restart state (no watcher is started on this path)
+		ss[S-1].handshakeDone = false
+		err := l.HotRestart(epoch)
+		vfAssert(err == ErrInHandshakeStage, "C16.handshaking-session-rejects-restart")
+		vfAssert(l.IsHotRestartDone(), "C16.failed-request-leaves-hot-restart-state")
+		vfCover("opt:C16.server.rejected")
+		return
+	}
 	vfAssert(l.HotRestart(epoch) == nil, "C16.hot-restart-starts")
 	vfAssert(!l.IsHotRestartDone(), "C16.in-hot-restart-state")
 	vfAssert(len(c16Wire) == S && l.hotRestartAckCount == S, "C16.one-request-per-session")
